@@ -21,7 +21,7 @@
 #include <fstream>
 #include <sstream>
 
-#include "nx.h"
+#include "../nx/nx.h"
 
 using namespace std;
 using namespace nx;
